@@ -19,10 +19,10 @@ Definition limiter (L : N) (a : aset) (keys : list aset) : aset :=
 
 (** ** attribute.Set.Filter with an allow-list (NewAllowKeysFilter): the kept
     key-values stay in order, so the result is canonical again. *)
-Definition set_filter (f : option (list bytes)) (a : aset) : aset :=
+Definition set_filter (f : option afilter) (a : aset) : aset :=
   match f with
   | None => a
-  | Some ks => filter (fun x => bmem (fst x) ks) a
+  | Some f => filter (keeps f) a
   end.
 
 (** ** The per-attribute-set update of each aggregator family *)
@@ -87,7 +87,7 @@ Fixpoint s_run (c : scfg) (h : list aev) (st : sstate) : list points :=
 (** ** pipeline.go: view resolution *)
 
 (** One aggregator inserted into the pipeline (instrumentSync + its Builder configuration). *)
-Record aggdecl := { ad_name : bytes; ad_kind : akind; ad_ikind : ikind; ad_filter : option (list bytes) }.
+Record aggdecl := { ad_name : bytes; ad_kind : akind; ad_ikind : ikind; ad_filter : option afilter }.
 
 (** inserter.aggregators cache (stream identity -> aggregator index, or None for a cached
     drop) and the pipeline's aggregations in insertion order. *)
